@@ -73,3 +73,18 @@ Lemma ex_nested_run : forall F bld,
   run_example F bld ex_nested_module =
     Some (Vm.OOk, [Some (Vm.VInt 2); Some (Vm.VInt 5); Some (Vm.VInt (-3)); Some (Vm.VInt 7)], []).
 Proof. intros F bld. destruct bld; vm_compute; reflexivity. Qed.
+
+(* the hypotheses of card_keeps_scopes: a Repeat card with a loop variable and an assignment to a new variable,
+   compiled in the state of a function body (one level, depth 1, no locals): the loop's scopes are closed again and
+   everything declared inside them (counters, loop variable, the new variable of the body) is popped *)
+Lemma ex_card_keeps_scopes :
+  let s := set_scopes [[]] [[]] [1%Z] (init_state true) in
+  let c := CRepeat (Some x_x) (CScalarInt 3) (CSetVar x_r (CReadVar x_x)) in
+  scopes_ok s /\ cs_depth s = [1%Z] /\
+  exists s', process_card c s = ROk tt s' /\ cs_depth s' = [1%Z] /\ cs_locals s' = [[]].
+Proof.
+  intros s c. split; [|split; [reflexivity|]].
+  - constructor; [|constructor]. split; [discriminate|]. split; [constructor | discriminate].
+  - destruct (process_card c s) as [[] s'| | |] eqn:E; try (vm_compute in E; discriminate).
+    exists s'. split; [reflexivity|]. vm_compute in E. injection E as <-. split; reflexivity.
+Qed.
